@@ -170,7 +170,7 @@ class Run:
         return corr
 
 
-STATELESS = {"res", "stream", "sort"}
+STATELESS = {"res", "stream", "sort", "conf"}
 # verdict lines may carry several failing clauses separated by " ;; "
 
 
